@@ -26,6 +26,12 @@ type c12Case struct {
 	Size   int    `json:"size,omitempty"`
 	Max    int    `json:"max,omitempty"`
 	First  bool   `json:"first,omitempty"`
+	// outbound: the messages are published while the (durable) subscriber is away and reach it from persistence
+	// in its next connection - the limit it announces THERE binds them too
+	Offline bool `json:"offline,omitempty"`
+	// with Offline: the first connection announces no limit, receives the messages and acknowledges nothing; they
+	// come back as retransmissions in the next connection, which announces the limit
+	Unacked bool `json:"unacked,omitempty"`
 }
 
 type c12Obs struct {
@@ -68,7 +74,7 @@ func (p *c12Prop) Gen(r *Rng, i int, tier string) interface{} {
 			// Pkts[0] / Pkts[1]: protocol version of the publisher / of the subscriber (4, 5); Pkts[2]: subscription identifier?
 			return &c12Case{Kind: "wellformed", Pkts: []int{4 + r.Intn(2), 4 + r.Intn(2), r.Intn(2)}}
 		}
-		return &c12Case{Kind: "outbound", Max: 40 + r.Intn(200), Seed: int(r.U64() % 1000000)}
+		return &c12Case{Kind: "outbound", Max: 40 + r.Intn(200), Seed: int(r.U64() % 1000000), Offline: r.Chance(35), Unacked: r.Chance(40)}
 	}
 	c := &c12Case{Kind: "seg", V5: r.Bool()}
 	n := 1 + r.Intn(7)
@@ -410,15 +416,46 @@ func (p *c12Prop) Run(ci interface{}) interface{} {
 	case "outbound":
 		r := NewRng(uint64(c.Seed))
 		sc := b.Dial()
-		if _, err := sc.Connect(ConnectOpts{ID: "small", Ver: mqttp.ProtocolV50, Clean: true, MaxPacket: uint32(c.Max)}); err != nil {
+		exp := uint32(300)
+		unacked := c.Offline && c.Unacked
+		first := uint32(c.Max)
+		if unacked {
+			first = 0
+		}
+		if _, err := sc.Connect(ConnectOpts{ID: "small", Ver: mqttp.ProtocolV50, Clean: true, MaxPacket: first, Expiry: &exp}); err != nil {
 			obs.Err = err.Error()
 			return obs
 		}
-		s := sc.Auto(false)
+		s := sc.Auto(unacked)
 		_ = s.SendL(mkSubscribe(mqttp.ProtocolV50, 1, []string{"o/#"}, []byte{1}))
 		if !s.WaitFor(5*time.Second, func() bool { return len(s.Others) >= 1 }) {
 			obs.Err = "no suback"
 			return obs
+		}
+		var watch *Auto
+		if c.Offline {
+			wc := b.Dial()
+			if _, err := wc.Connect(ConnectOpts{ID: "watch", Ver: mqttp.ProtocolV311, Clean: true}); err != nil {
+				obs.Err = err.Error()
+				return obs
+			}
+			watch = wc.Auto(false)
+			_ = watch.SendL(mkSubscribe(mqttp.ProtocolV311, 1, []string{"o/end"}, []byte{1}))
+			if !watch.WaitFor(5*time.Second, func() bool { return len(watch.Others) >= 1 }) {
+				obs.Err = "watcher: no suback"
+				return obs
+			}
+		}
+		goAway := func() {
+			before := b.Met.Disconnected()
+			s.Close()
+			deadline := time.Now().Add(5 * time.Second)
+			for b.Met.Disconnected() == before && time.Now().Before(deadline) {
+				time.Sleep(time.Millisecond)
+			}
+		}
+		if c.Offline && !unacked {
+			goAway()
 		}
 		pc := b.Dial()
 		if _, err := pc.Connect(ConnectOpts{ID: "pubr", Ver: mqttp.ProtocolV50, Clean: true}); err != nil {
@@ -431,7 +468,9 @@ func (p *c12Prop) Run(ci interface{}) interface{} {
 			n := c.Max - 30 + r.Intn(60)
 			if k%3 == 0 {
 				n = 3
-				small++
+				if !c.Offline || k%2 == 1 { // QoS 0 is not kept for a session that is away, nor retransmitted
+					small++
+				}
 			}
 			if n < 0 {
 				n = 0
@@ -446,6 +485,35 @@ func (p *c12Prop) Run(ci interface{}) interface{} {
 		// one end marker per writer queue (QoS 0 and QoS 1/2 messages travel separately)
 		_ = pa.SendL(mkPublish(mqttp.ProtocolV50, "o/end", []byte{9}, 0, false, 0))
 		_ = pa.SendL(mkPublish(mqttp.ProtocolV50, "o/end", []byte{9}, 1, false, 999))
+		if c.Offline {
+			// the single routing worker has handed everything before the marker to the absent session: it is persisted
+			if !watch.WaitFor(5*time.Second, func() bool { return len(watch.Pubs) >= 2 }) {
+				obs.Err = "watcher: no end marker"
+				return obs
+			}
+			if unacked {
+				// everything has been transmitted once (the QoS 1 end marker is the last of its queue)
+				s.WaitFor(5*time.Second, func() bool {
+					for _, m := range s.Pubs {
+						if m.Topic() == "o/end" && m.QoS() == 1 {
+							return true
+						}
+					}
+					return false
+				})
+				goAway()
+			}
+			sc2 := b.Dial()
+			if _, err := sc2.Connect(ConnectOpts{ID: "small", Ver: mqttp.ProtocolV50, Clean: false, MaxPacket: uint32(c.Max), Expiry: &exp}); err != nil {
+				obs.Err = "reconnect: " + err.Error()
+				return obs
+			}
+			s = sc2.Auto(false)
+		}
+		wantEnd := 2
+		if c.Offline {
+			wantEnd = 1
+		}
 		s.WaitFor(5*time.Second, func() bool {
 			n := 0
 			for _, m := range s.Pubs {
@@ -453,7 +521,7 @@ func (p *c12Prop) Run(ci interface{}) interface{} {
 					n++
 				}
 			}
-			return n >= 2
+			return n >= wantEnd
 		})
 		// a response that would exceed the limit: SUBACK carries one code per filter
 		nf := c.Max
@@ -489,7 +557,16 @@ func (p *c12Prop) Run(ci interface{}) interface{} {
 			}
 		}
 		s.mu.Unlock()
-		obs.Small = got == small
+		// away: the QoS 1 ones must all arrive; whether QoS 0 messages are kept for an absent session is the broker's choice
+		obs.Small = got == small || (c.Offline && got >= small && got <= 4)
+		if unacked {
+			// what the limit-less first connection received does not count
+			for _, m := range s.Pubs {
+				if !m.Dup() && m.QoS() > 0 {
+					obs.Err = fmt.Sprintf("%q arrived in the second connection without DUP", m.Topic())
+				}
+			}
+		}
 	}
 	return obs
 }
